@@ -3,6 +3,7 @@ package main
 import (
 	"fmt"
 	"go/types"
+	"strings"
 
 	"golang.org/x/tools/go/ssa"
 )
@@ -170,9 +171,12 @@ func checkC10(w *World, c *Check) {
 		}
 	})
 	shapes := [][]int{{1}, {2}, {1, 1}, {2, 1}, {1, 2}, {3}, {1, 1, 1}, {1, 3}, {2, 2}, {3, 1}, {1, 1, 2}, {1, 2, 1}}
+	// one five-entry shape in the quick tier too: two removals in one list with two entries behind them is the
+	// smallest case in which the in-place deletion reads entries it has already moved (seed C10-m4)
+	shapes = append(shapes, []int{1, 4})
 	if c.Tier == "thorough" {
 		// deeper: every split of five entries over at most three lists that puts a duplicate candidate after two survivors
-		shapes = append(shapes, []int{4}, []int{2, 3}, []int{3, 2}, []int{1, 4}, []int{1, 1, 3}, []int{2, 1, 2})
+		shapes = append(shapes, []int{4}, []int{2, 3}, []int{3, 2}, []int{1, 1, 3}, []int{2, 1, 2})
 	}
 	for _, shape := range shapes {
 		dedupBounded(w, c, shape)
@@ -325,6 +329,7 @@ func dedupBounded(w *World, c *Check, shape []int) {
 	}
 	guard(c, grp, func() {
 		ex := w.NewExec()
+		ex.inPlaceAppend = true // the in-place delete really shifts the entries later iterations read
 		ex.symLoopBound = total + 1
 		ex.unwindAssert = true
 		installIsNilSpecHook(ex)
@@ -341,8 +346,8 @@ func dedupBounded(w *World, c *Check, shape []int) {
 		}
 		st := newState()
 		type ent struct {
-			e                  *Term
-			list, idx          int
+			e                         *Term
+			list, idx                 int
 			key, counted, first, keep *Term
 		}
 		var ents []*ent
@@ -400,7 +405,7 @@ func dedupBounded(w *World, c *Check, shape []int) {
 		common := append(append([]*Term{ex.NoPanic()}, equiv...), ex.assumes...)
 		pos := ex.pos(fn.Pos())
 		fns := []string{"ItemCollectionDeduplication"}
-		rp := c10Replay("Object")
+		rp := c10DedupReplay(shape)
 		iriT := w.Type("IRI")
 		var firsts []*Term
 		for _, en := range ents {
@@ -447,4 +452,109 @@ func dedupBounded(w *World, c *Check, shape []int) {
 			c.Add(&Obligation{Name: grp + "/loops-fully-unrolled", Goal: TFalse, Pos: pos, Funcs: fns, EngineErr: "a loop was cut although the lists are of fixed length"})
 		}
 	})
+}
+
+// c10DedupReplay: for a failing de-duplication obligation the real ItemCollectionDeduplication is compared with
+// the statement's rule on EVERY assignment of a small alphabet of entries to lists of the obligation's shape.
+func c10DedupReplay(shape []int) func(map[string]string) string {
+	var sz []string
+	for _, n := range shape {
+		sz = append(sz, fmt.Sprint(n))
+	}
+	return func(map[string]string) string {
+		return `package activitypub
+
+import (
+	"reflect"
+	"strings"
+	"testing"
+)
+
+func TestVerifReplay(t *testing.T) {
+	shape := []int{` + strings.Join(sz, ", ") + `}
+	mk := []func() Item{
+		func() Item { return nil },
+		func() Item { return IRI("https://example.com/a") },
+		func() Item { return IRI("http://example.com/a") },
+		func() Item { return IRI("https://example.com/b") },
+		func() Item { return IRI("https://example.com/c") },
+		func() Item { return &Object{ID: "https://example.com/a"} },
+		func() Item { return &Object{Type: NoteType} },
+	}
+	key := func(it Item) string {
+		if IsNil(it) {
+			return ""
+		}
+		k := ""
+		if it.IsObject() {
+			k = string(it.GetID())
+		} else if it.IsLink() {
+			k = string(it.GetLink())
+		}
+		return strings.TrimPrefix(strings.TrimPrefix(k, "https://"), "http://")
+	}
+	total := 0
+	for _, n := range shape {
+		total += n
+	}
+	idx := make([]int, total)
+	for {
+		// build the lists, the expected survivors and the expected recipients
+		var lists, want []ItemCollection
+		var rec []string
+		seen := map[string]bool{}
+		p := 0
+		for _, n := range shape {
+			l, wl := ItemCollection{}, ItemCollection{}
+			for k := 0; k < n; k++ {
+				it := mk[idx[p]]()
+				p++
+				l = append(l, it)
+				kk := key(it)
+				if kk != "" && seen[kk] {
+					continue
+				}
+				if kk != "" {
+					seen[kk] = true
+					rec = append(rec, kk)
+				}
+				wl = append(wl, it)
+			}
+			lists = append(lists, l)
+			want = append(want, wl)
+		}
+		ptrs := make([]*ItemCollection, len(lists))
+		for i := range lists {
+			ptrs[i] = &lists[i]
+		}
+		got := ItemCollectionDeduplication(ptrs...)
+		var gk []string
+		for _, g := range got {
+			gk = append(gk, key(g))
+		}
+		if !reflect.DeepEqual(gk, rec) {
+			t.Fatalf("choice %v: recipients %v, want %v", idx, gk, rec)
+		}
+		for i := range lists {
+			if len(lists[i]) != len(want[i]) || (len(want[i]) > 0 && !reflect.DeepEqual(lists[i], want[i])) {
+				t.Fatalf("choice %v: list %d after de-duplication is %v, want %v (first mention kept, order kept, nil and id-less entries left alone)", idx, i, lists[i], want[i])
+			}
+		}
+		// next assignment
+		k := 0
+		for k < total {
+			idx[k]++
+			if idx[k] < len(mk) {
+				break
+			}
+			idx[k] = 0
+			k++
+		}
+		if k == total {
+			break
+		}
+	}
+}
+`
+	}
 }
